@@ -310,11 +310,11 @@ func runExchange(t *verifsim.Tape, cfg engine.Config, prop string) *engine.Outco
 			o.Violate("harness_glue", "harness_glue", "%v", err)
 			return o
 		}
-		resp := m.Responses[0]
 		where := fmt.Sprintf("%s %s.%s", name, s.Name, m.Name)
 		// ---- scenario for this exchange
 		payload := genPayload(t, d, m)
-		result := genResult(t, d, m, resp)
+		result := genResult(t, d, m, m.Responses[len(m.Responses)-1])
+		resp := selectResponse(m, result)
 		mode := "valid"
 		w.reject = map[string]bool{}
 		viewName, viewClass := "", ""
@@ -514,7 +514,7 @@ func runExchange(t *verifsim.Tape, cfg engine.Config, prop string) *engine.Outco
 			continue
 		}
 		if ex.HandlerPanic != nil && ex.HandlerPanic != "http.ErrAbortHandler" && !(prop == "C08" && viewClass == "undefined") {
-			o.Violate("handler_panic", "handler_panic:"+stackClass(ex), "%s: generated server panicked: %v\n%s (payload %s, faults %v)", where, ex.HandlerPanic, genFrames(ex.PanicStack), gen.Show(payload), ex.Faults)
+			o.Violate("handler_panic", panicCause(d, m, result, ex), "%s: generated server panicked: %v\n%s (payload %s, result %s, faults %v)", where, ex.HandlerPanic, genFrames(ex.PanicStack), gen.Show(payload), gen.Show(result), ex.Faults)
 			continue
 		}
 		// user code only ever sees values that satisfy the design (whatever the network did)
@@ -1254,6 +1254,9 @@ func judgeView(o *engine.Outcome, w *world, d *spec.Design, s *spec.Service, m *
 	multi := len(u.Views) > 1 && m.FixedView == ""
 	rewritten := strings.HasPrefix(ex.RespFault, "rewrite_header:")
 	sig := fmt.Sprintf("views=%d,%s", len(u.Views), viewClass)
+	// a result type that nests the SAME result type twice under two different views is a
+	// defect class of its own (goa renders both attributes with one of the views)
+	sameTypeTwoViews := sameNestedTypeTwoViews(d, u)
 	if viewClass == "undefined" {
 		// the service named a view the type does not have: anything but a success that
 		// exposes attributes is acceptable; what goa does is recorded
@@ -1272,8 +1275,8 @@ func judgeView(o *engine.Outcome, w *world, d *spec.Design, s *spec.Service, m *
 		return
 	}
 	// ---- what crossed the wire (before any rewrite: ex.RespHeader is the server's own)
-	if ex.Status != m.Responses[0].Status {
-		o.Violate("response_status", "status:view", "%s: status %d, design says %d", where, ex.Status, m.Responses[0].Status)
+	if want := selectResponse(m, sent).Status; ex.Status != want {
+		o.Violate("response_status", "status:view", "%s: status %d, design says %d", where, ex.Status, want)
 		return
 	}
 	hv := ex.RespHeader.Get("Goa-View")
@@ -1281,6 +1284,10 @@ func judgeView(o *engine.Outcome, w *world, d *spec.Design, s *spec.Service, m *
 		o.Violate("view_header", "view_header:"+sig, "%s: rendered view %q but the goa-view header says %q", where, rendered, hv)
 	}
 	for _, e := range wireKeys(d, ex.RespBody, u, rendered, sent, "body") {
+		if sameTypeTwoViews && (strings.Contains(e, "body.sibling") || strings.Contains(e, "body.child")) {
+			o.Violate("view_wire", "view:same-nested-type-under-two-views", "%s: view %q: %s\n  full value %s\n  body %q", where, rendered, e, gen.Show(sent), clipS(string(ex.RespBody)))
+			return
+		}
 		o.Violate("view_wire", "view_wire:"+sig, "%s: view %q: %s\n  full value %s\n  body %q", where, rendered, e, gen.Show(sent), clipS(string(ex.RespBody)))
 		break
 	}
@@ -1325,7 +1332,9 @@ func judgeView(o *engine.Outcome, w *world, d *spec.Design, s *spec.Service, m *
 	got := gen.FromGo(d, reflect.ValueOf(res), m.Result.Type)
 	want := gen.Expected(d, gen.Project(d, sent, u, rendered), &spec.Attr{Type: &spec.Type{Kind: spec.Object, Fields: u.Attr.Type.Fields}})
 	gotIn := gen.Project(d, got, u, rendered)
-	if diff := gen.Diff(want, gotIn, ""); diff != "" {
+	if diff := gen.Diff(want, gotIn, ""); diff != "" && sameTypeTwoViews && (strings.HasPrefix(diff, "sibling") || strings.HasPrefix(diff, "child")) {
+		o.Violate("view_value", "view:same-nested-type-under-two-views", "%s: view %q: %s", where, rendered, diff)
+	} else if diff != "" {
 		o.Violate("view_value", "view_value:"+sig, "%s: view %q: %s\n  service returned %s\n  client rebuilt   %s", where, rendered, diff, gen.Show(sent), gen.Show(got))
 	}
 	if out := gen.OutsideView(d, got, u, rendered, ""); len(out) > 0 {
@@ -1519,4 +1528,67 @@ func firstLine(s string) string {
 		s = s[:300]
 	}
 	return s
+}
+
+
+// selectResponse applies the design's rule: the first response whose tag
+// attribute carries the tag value, else the untagged one.
+func selectResponse(m *spec.Method, result any) *spec.Response {
+	obj, _ := result.(map[string]any)
+	var untagged *spec.Response
+	for _, r := range m.Responses {
+		if r.TagAttr == "" {
+			if untagged == nil {
+				untagged = r
+			}
+			continue
+		}
+		if v, ok := obj[r.TagAttr].(string); ok && v == r.TagVal {
+			return r
+		}
+	}
+	if untagged != nil {
+		return untagged
+	}
+	return m.Responses[len(m.Responses)-1]
+}
+
+
+func sameNestedTypeTwoViews(d *spec.Design, x *spec.UserType) bool {
+	if x == nil {
+		return false
+	}
+	seen := map[string]string{}
+	for _, f := range x.Attr.Type.Fields {
+		if f.Type.Kind == spec.User {
+			if nu := d.UserType(f.Type.Name); nu != nil && nu.IsResult {
+				if v, ok := seen[nu.Name]; ok && v != f.View {
+					return true
+				}
+				seen[nu.Name] = f.View
+			}
+		}
+	}
+	return false
+}
+
+// panicCause gives a handler panic the signature of its structural cause when
+// that cause is recognisable from the design and the values, else of the
+// panicking function class.
+func panicCause(d *spec.Design, m *spec.Method, result any, ex *simnet.Exchange) string {
+	if strings.Contains(ex.PanicStack, "ResponseBody") && sameNestedTypeTwoViews(d, resultType(d, m)) {
+		return "view:same-nested-type-under-two-views"
+	}
+	if m.Result != nil && strings.Contains(ex.PanicStack, "Encode") {
+		if r := selectResponse(m, result); r.TagAttr != "" {
+			obj, _ := result.(map[string]any)
+			rt := d.Resolve(m.Result.Type)
+			for a := range r.Headers {
+				if f := rt.Field(a); f != nil && !f.Required && !f.HasDef && obj[a] == nil {
+					return "tagged-response-dereferences-unset-optional-header"
+				}
+			}
+		}
+	}
+	return "handler_panic:" + stackClass(ex)
 }
